@@ -196,7 +196,7 @@ def check_case(ctx, case):
             revisit(ctx)
     except Exception as e:
         got, got_period = e, None
-    path = PathTap.accepted()
+    path = PathTap.accepted("relative-time")
     ctx.ran()
     units = sorted(set(u for n, u in (case.get("parts") or WORDS.get(case["word"], ([], 0))[0])))
     feats = {"form": case.get("form") or "word", "units": units, "clock": case["clock"] is not None,
@@ -364,7 +364,7 @@ def run_implicit(ctx, desc):
                     if not ok:
                         ctx.violation(cj, r, {"between": [iso(t0 + delta), iso(t1 + delta)], "zone": zone}, "implicit-base", feats)
                         continue
-                    if PathTap.accepted() == "relative-time":
+                    if PathTap.accepted("relative-time") == "relative-time":
                         ctx.count("implicit:ok")
                         ctx.nontrivial("implicit", A, B, phrase)
     ctx.sample({"implicit_grid": GRID, "phrases": [p for p, _ in IMPLICIT_PHRASES]})
